@@ -328,7 +328,30 @@ def findMinimum (xl xr tol : Rat) (fuel : Nat) : Out1 × List Ev :=
     let r := brent rnd f tol s
     (r.1, t ++ r.2)
 
+/-! ### a variant that does not evaluate the objective a second time at `bx`
+    (the evaluation COUNT in one dimension is not part of the property: `Brent::Minimize` may start
+    from the value `fb` that `Bracket` already holds) -/
+
+def brentInitNR (s : Br) : Bt :=
+  { a := if s.ax < s.cx then s.ax else s.cx, b := if s.ax > s.cx then s.ax else s.cx, d := 0, e := 0,
+    x := s.bx, w := s.bx, v := s.bx, fx := s.fb, fw := s.fb, fv := s.fb, pm := 1 }
+
+def brentNR (tol : Rat) (s : Br) : Out1 × List Ev := brentLoop rnd f tol ITMAX (brentInitNR s)
+
+def findMinimumNR (xl xr tol : Rat) (fuel : Nat) : Out1 × List Ev :=
+  match bracket rnd f xl xr fuel with
+  | (none, t) => (.noBracket, t)
+  | (some s, t) =>
+    let r := brentNR rnd f tol s
+    (r.1, t ++ r.2)
+
 end OneDim
+
+/-- an objective answered from a table of earlier evaluations where possible (memoisation) -/
+def memoised (f : Rat → Rat) (cache : List (Rat × Rat)) (x : Rat) : Rat :=
+  match cache.lookup x with
+  | some v => v
+  | none => f x
 
 /-- `Find_Maximum`: the objective is wrapped as `-1.0 * func(x)` (exact in floating point) -/
 def findMaximum (rnd : Rat → Rat) (f : Rat → Rat) (xl xr tol : Rat) (fuel : Nat) : Out1 × List Ev :=
